@@ -11,6 +11,7 @@ import (
 	"fmt"
 	"io"
 	"strings"
+	"time"
 
 	"mellium.im/xmpp/stanza"
 	"mellium.im/xmpp/stream"
@@ -307,4 +308,113 @@ func ErrClass(err error) string {
 		return "addrmismatch"
 	}
 	return "other:" + fmt.Sprintf("%.60s", msg)
+}
+
+// ---- forced interleavings of several sessions --------------------------------------------
+
+// Sched runs several session goroutines one at a time: a session runs until it reaches
+// its next yield point (Park) or finishes, then the controller decides who moves next.
+// No sleeps: every hand-over is a channel operation.  A nil *Sched never parks (free
+// running, used for the race-detector runs).
+type Sched struct {
+	gos  []chan struct{}
+	evt  chan schedEvent
+	done []bool
+	// Cur is the session that is running (valid inside callbacks of the code under test).
+	Cur int
+	// Trace lists the yield points in the order they were reached: "<session>:<point>".
+	Trace []string
+	// Stalled is set when a session did not reach a yield point within the watchdog time.
+	Stalled bool
+}
+
+type schedEvent struct {
+	i     int
+	point string // "" = finished
+}
+
+func NewSched(n int) *Sched {
+	s := &Sched{evt: make(chan schedEvent), done: make([]bool, n)}
+	for i := 0; i < n; i++ {
+		s.gos = append(s.gos, make(chan struct{}))
+	}
+	return s
+}
+
+// Park is called by session i at a yield point.
+func (s *Sched) Park(i int, point string) {
+	if s == nil {
+		return
+	}
+	s.evt <- schedEvent{i, point}
+	<-s.gos[i]
+}
+
+func (s *Sched) wait(i int) {
+	select {
+	case e := <-s.evt:
+		if e.point == "" {
+			s.done[e.i] = true
+		} else {
+			s.Trace = append(s.Trace, fmt.Sprintf("%d:%s", e.i, e.point))
+		}
+	case <-time.After(20 * time.Second):
+		s.Stalled = true
+		s.done[i] = true
+	}
+}
+
+// Start launches session i and waits until it parks for the first time (or finishes).
+func (s *Sched) Start(i int, f func()) {
+	s.Cur = i
+	go func() {
+		f()
+		s.evt <- schedEvent{i, ""}
+	}()
+	s.wait(i)
+}
+
+// Step lets session i run to its next yield point; false if it has already finished.
+func (s *Sched) Step(i int) bool {
+	if i < 0 || i >= len(s.done) || s.done[i] {
+		return false
+	}
+	s.Cur = i
+	s.gos[i] <- struct{}{}
+	s.wait(i)
+	return true
+}
+
+// Finish runs every session that is still parked to its end (in index order).
+func (s *Sched) Finish() {
+	for i := range s.done {
+		for k := 0; k < 64 && s.Step(i); k++ {
+		}
+	}
+}
+
+// Interleavings enumerates every order of n sessions making k moves each.
+func Interleavings(n, k int, f func([]int)) {
+	left := make([]int, n)
+	for i := range left {
+		left[i] = k
+	}
+	cur := make([]int, 0, n*k)
+	var rec func()
+	rec = func() {
+		if len(cur) == n*k {
+			f(append([]int(nil), cur...))
+			return
+		}
+		for i := 0; i < n; i++ {
+			if left[i] > 0 {
+				left[i]--
+				cur = append(cur, i)
+				rec()
+				cur = cur[:len(cur)-1]
+				left[i]++
+			}
+		}
+	}
+	rec()
 }
